@@ -18,7 +18,7 @@ def run(prop, tier, seed):
     M = "MC_Refs.tla"
     tol = [e["tag"] for e in core.KnownFindings(prop).open]
     with core.Scratch() as scratch:
-        props = [{"module": M, "cfg": "%s_p.cfg" % prop, "extra_defs": {"%s_p.cfg" % prop: cfg("KAll", 3, False)}}]
+        props = [{"module": M, "cfg": "%s_p.cfg" % prop, "extra_defs": {"%s_p.cfg" % prop: cfg("KAll", 2 if quick else 3, False)}}]
         gens = [{"module": M, "cfg": "%s_g.cfg" % prop, "workers": 8, "extra_defs": {"%s_g.cfg" % prop: cfg("KAll", 1 if quick else 2, True)}},
                 {"module": M, "cfg": "%s_s.cfg" % prop, "workers": 8, "simulate": 500 if quick else 20000, "depth": 10, "seed": seed,
                  "extra_defs": {"%s_s.cfg" % prop: cfg("KAll", 6, True)}}]
